@@ -15,13 +15,16 @@ DataClasses == {"absent", "good", "good_inst", "empty_env", "bad_env", "bad_json
 VARIABLES pi,      \* program (index into Progs)
           st,      \* "idle" | "built" | "replied" | "dispatched"
           sub,     \* the sub-message built: [h, recv, id, reply_on, gas_kept]
-          rep,     \* the reply delivered: [h (or "?"), result, class]
+          rep,     \* the reply delivered: [h (or "?"), result, class, pay]
+                   \*   pay: "built" (the payload the builder encoded) | "empty" | "garbage" (a reply that did not come from the builder)
           out      \* what the dispatcher did: [kind, m, extracted]
 rvars == <<pi, st, sub, rep, out>>
 Pr == Progs[pi]
 
 NoSub == [h |-> "", recv |-> "", reply_on |-> "", gas_kept |-> TRUE]
-NoRep == [h |-> "", result |-> "", class |-> ""]
+NoRep == [h |-> "", result |-> "", class |-> "", pay |-> "built"]
+(* a raw payload parameter takes any bytes; typed parameters need the encoding the builder produces *)
+PayloadDecodes(p, h, pay) == pay = "built" \/ \A sig \in PayloadSigs(p, h) : sig = "raw"
 NoOut == [kind |-> "", m |-> 0, extracted |-> ""]
 
 BuildSubMsg(h, recv) ==
@@ -35,13 +38,13 @@ ChainReplies(on, result) == on = "always" \/ (on = "success" /\ result = "ok") \
 Outcome(result, class) ==
     /\ st = "built"
     /\ ChainReplies(sub.reply_on, result)
-    /\ rep' = [h |-> sub.h, result |-> result, class |-> IF result = "ok" THEN class ELSE "absent"]
+    /\ rep' = [h |-> sub.h, result |-> result, class |-> IF result = "ok" THEN class ELSE "absent", pay |-> "built"]
     /\ st' = "replied"
     /\ UNCHANGED <<pi, sub, out>>
 (* a reply can also reach the dispatcher directly (any id, any outcome): the dispatcher must cope *)
-Inject(h, result, class) ==
+Inject(h, result, class, pay) ==
     /\ st = "idle"
-    /\ rep' = [h |-> h, result |-> result, class |-> IF result = "ok" THEN class ELSE "absent"]
+    /\ rep' = [h |-> h, result |-> result, class |-> IF result = "ok" THEN class ELSE "absent", pay |-> pay]
     /\ st' = "replied"
     /\ UNCHANGED <<pi, sub, out>>
 
@@ -52,7 +55,10 @@ ReplyDispatch ==
        ELSE IF rep.h \notin AllHandlers(Pr)
        THEN out' = [kind |-> "unknown_id", m |-> 0, extracted |-> ""]
        ELSE LET r == Route(Pr, rep.h, rep.result) IN
-            IF r.kind = "method" /\ r.second = "data"
+            \* an outcome no method covers is passed through / forwarded whatever the payload is: nothing decodes it
+            IF r.kind = "method" /\ ~PayloadDecodes(Pr, rep.h, rep.pay)
+            THEN out' = [kind |-> "payload_error", m |-> r.m, extracted |-> ""]
+            ELSE IF r.kind = "method" /\ r.second = "data"
             THEN \E x \in Extract(DataMode(Pr, rep.h), rep.class) :
                     out' = [kind |-> IF HandlerRuns(x) THEN "method" ELSE "data_error", m |-> r.m, extracted |-> x]
             ELSE out' = [kind |-> r.kind, m |-> r.m, extracted |-> ""]
@@ -78,6 +84,12 @@ C06_LegacyReplyAlwaysRuns == (st = "dispatched" /\ Legacy(Pr)) => (out.kind = "m
 (* C08: a reply requested through the builder always finds a method: nothing is requested in vain *)
 C08_RequestedRepliesAreHandled ==
     (st = "dispatched" /\ sub.h # "") => out.kind \in {"method", "data_error"}
+(* C07/C08: a method runs only on a payload its parameters can be decoded from; an uncovered outcome never depends on the payload *)
+C07_UncoveredIgnoresPayload ==
+    (st = "dispatched" /\ rep.h \in AllHandlers(Pr) /\ ~Legacy(Pr) /\ Route(Pr, rep.h, rep.result).kind # "method") =>
+        out.kind = Route(Pr, rep.h, rep.result).kind
+C08_MethodNeedsDecodablePayload ==
+    (st = "dispatched" /\ out.kind = "method" /\ ~Legacy(Pr)) => PayloadDecodes(Pr, rep.h, rep.pay)
 (* C09: the handler is never invoked on undecodable or missing mandatory data *)
 C09_NoHandlerOnBadData ==
     (st = "dispatched" /\ out.kind = "data_error") => out.extracted \in {"missing", "decode_err"}
